@@ -4,7 +4,7 @@ import re
 
 from hypothesis import strategies as st
 
-from .. import gen, probes
+from .. import gen, prelude, probes
 from ..spec import from_statechart, to_statechart, to_yaml_text
 
 PROP = 'C11'
@@ -15,7 +15,8 @@ RULE = ('cases = (A) well-formed tree shape whose names, events, description, pr
         'boolean/null/number look-alikes, surrounding/inner whitespace, multi-line text, long '
         'lines, control, combining and non-BMP characters; built through the API or from '
         'harness-generated YAML text; (B) instrumented executable chart (+contracts) with an input '
-        'history. Oracle A: import(export(sc)) returns and has the same name/description/preamble, '
+        'history; before each case one or two unrelated documents (with %YAML 1.1 / 1.2 or %TAG '
+        'directives, rejected ones, anchors) are imported in the same process. Oracle A: import(export(sc)) returns and has the same name/description/preamble, '
         'states (kind, parent, children set, initial/memory, entry/exit code, contract lists) and '
         'transition multiset, code modulo strip(); == between states / transitions for code '
         'without surrounding whitespace; exporting the re-import is idempotent. Oracle B: original, '
@@ -136,7 +137,8 @@ def strategy(tier):
         spec['name'] = draw(ok_text)
         spec['description'] = opt(ok_text)
         spec['preamble'] = opt(ok_text)
-        return {'kind': draw(st.sampled_from(['api', 'api', 'yaml'])), 'spec': spec}
+        return {'kind': draw(st.sampled_from(['api', 'api', 'yaml'])), 'spec': spec,
+                'prelude': draw(prelude.strategy())}
 
     @st.composite
     def domain_b(draw):
@@ -144,7 +146,8 @@ def strategy(tier):
                                p_orth_root=0.4))
         spec = draw(gen.with_contracts(spec, p=0.3))
         ops = draw(gen.histories(spec, 8, 20, p_all=0.45, advances=True, delays=True))
-        return {'kind': 'behaviour', 'spec': spec, 'ops': ops}
+        return {'kind': 'behaviour', 'spec': spec, 'ops': ops,
+                'prelude': draw(prelude.strategy())}
     return st.one_of(domain_a(), domain_a(), domain_b())
 
 
@@ -326,6 +329,7 @@ def oracle_b(case):
 
 
 def oracle(case):
+    prelude.run_prelude(case.get('prelude'))
     if case['kind'] == 'behaviour':
         return oracle_b(case)
     return oracle_a(case)
